@@ -4,6 +4,9 @@ import json, os
 root = '/verif'
 props = [json.loads(l) for l in open(f'{root}/properties.jsonl')]
 claimed = json.load(open(f'{root}/tools/checks.json'))
+import glob
+for f in sorted(glob.glob(f'{root}/tools/checks.d/*.json')):
+    claimed.update(json.load(open(f)))
 checks = []
 for p in props:
     c = claimed.get(p['id'])
